@@ -258,6 +258,60 @@ if len(re.findall(r"marker->last_restart_interval = 0;", jcmk)) < 2:
     die("jcmarker.c: last_restart_interval is no longer reset in write_file_header / jinit_marker_writer")
 if not re.search(r"emit_2bytes\(cinfo, \(int\)cinfo->restart_interval\);", jcmk):
     die("jcmarker.c: emit_dri no longer writes cinfo->restart_interval")
+
+# ---------------------------------------------------------------- jcmarker.c: marker codes and the shape of the writer
+mcodes = {}
+for nm in ["SOF0", "SOF1", "SOF2", "SOF3", "SOF9", "SOF10", "DHT", "DAC", "SOI", "EOI", "SOS", "DQT", "DRI", "APP0", "APP14"]:
+    mm = re.search(r"\bM_%s\s*=\s*0x([0-9a-fA-F]+)," % nm, jcmk)
+    if not mm:
+        die("jcmarker.c: marker code M_%s not found" % nm)
+    mcodes[nm] = int(mm.group(1), 16)
+for pat, what in [
+    (r"if \(!qtbl->sent_table\) \{\s*emit_marker\(cinfo, M_DQT\);\s*emit_2bytes\(cinfo, prec \? DCTSIZE2 \* 2 \+ 1 \+ 2 : DCTSIZE2 \+ 1 \+ 2\);\s*emit_byte\(cinfo, index \+ \(prec << 4\)\);", "emit_dqt header"),
+    (r"unsigned int qval = qtbl->quantval\[jpeg_natural_order\[i\]\];\s*if \(prec\)\s*emit_byte\(cinfo, \(int\)\(qval >> 8\)\);\s*emit_byte\(cinfo, \(int\)\(qval & 0xFF\)\);\s*\}\s*qtbl->sent_table = TRUE;", "emit_dqt body"),
+    (r"if \(!htbl->sent_table\) \{\s*emit_marker\(cinfo, M_DHT\);\s*length = 0;\s*for \(i = 1; i <= 16; i\+\+\)\s*length \+= htbl->bits\[i\];\s*emit_2bytes\(cinfo, length \+ 2 \+ 1 \+ 16\);\s*emit_byte\(cinfo, index\);", "emit_dht header"),
+    (r"for \(i = 0; i < length; i\+\+\)\s*emit_byte\(cinfo, htbl->huffval\[i\]\);\s*htbl->sent_table = TRUE;", "emit_dht body"),
+    (r"index \+= 0x10;", "emit_dht AC index"),
+    (r"emit_marker\(cinfo, M_DRI\);\s*emit_2bytes\(cinfo, 4\);", "emit_dri"),
+    (r"emit_2bytes\(cinfo, 3 \* cinfo->num_components \+ 2 \+ 5 \+ 1\);", "emit_sof length"),
+    (r"emit_byte\(cinfo, \(compptr->h_samp_factor << 4\) \+ compptr->v_samp_factor\);\s*emit_byte\(cinfo, compptr->quant_tbl_no\);", "emit_sof component"),
+    (r"emit_2bytes\(cinfo, 2 \* cinfo->comps_in_scan \+ 2 \+ 1 \+ 3\);", "emit_sos length"),
+    (r"td = cinfo->master->lossless \|\| \(cinfo->Ss == 0 && cinfo->Ah == 0\) \?\s*compptr->dc_tbl_no : 0;\s*ta = cinfo->Se \? compptr->ac_tbl_no : 0;\s*emit_byte\(cinfo, \(td << 4\) \+ ta\);", "emit_sos table selectors"),
+    (r"emit_byte\(cinfo, cinfo->Ss\);\s*emit_byte\(cinfo, cinfo->Se\);\s*emit_byte\(cinfo, \(cinfo->Ah << 4\) \+ cinfo->Al\);", "emit_sos parameters"),
+    (r"emit_marker\(cinfo, M_SOI\);\s*marker->last_restart_interval = 0;\s*if \(cinfo->write_JFIF_header\)\s*emit_jfif_app0\(cinfo\);\s*if \(cinfo->write_Adobe_marker\)\s*emit_adobe_app14\(cinfo\);", "write_file_header"),
+    (r"if \(!cinfo->master->lossless\) \{\s*for \(ci = 0, compptr = cinfo->comp_info; ci < cinfo->num_components;\s*ci\+\+, compptr\+\+\) \{\s*prec \+= emit_dqt\(cinfo, compptr->quant_tbl_no\);", "write_frame_header DQT loop"),
+    (r"if \(cinfo->arith_code\) \{\s*if \(cinfo->progressive_mode\)\s*emit_sof\(cinfo, M_SOF10\);\s*else\s*emit_sof\(cinfo, M_SOF9\);\s*\} else \{\s*if \(cinfo->progressive_mode\)\s*emit_sof\(cinfo, M_SOF2\);\s*"
+     r"else if \(cinfo->master->lossless\)\s*emit_sof\(cinfo, M_SOF3\);\s*else if \(is_baseline\)\s*emit_sof\(cinfo, M_SOF0\);\s*else\s*emit_sof\(cinfo, M_SOF1\);", "SOF selection"),
+    (r"if \(\(cinfo->Ss == 0 && cinfo->Ah == 0\) \|\| cinfo->master->lossless\)\s*emit_dht\(cinfo, compptr->dc_tbl_no, FALSE\);\s*if \(cinfo->Se && !cinfo->master->lossless\)\s*emit_dht\(cinfo, compptr->ac_tbl_no, TRUE\);", "write_scan_header DHT loop"),
+    (r"METHODDEF\(void\)\s*write_file_trailer\(j_compress_ptr cinfo\)\s*\{\s*emit_marker\(cinfo, M_EOI\);\s*\}", "write_file_trailer")]:
+    if not re.search(pat, jcmk):
+        die("jcmarker.c: %s no longer has the modelled form" % what)
+# F18 fix (if present): emit_dqt checks the table number before indexing quant_tbl_ptrs[]
+consts["DQT_INDEX_CHECK"] = 1 if re.search(r"if \(index < 0 \|\| index >= NUM_QUANT_TBLS\)\s*ERREXIT1\(cinfo, JERR_NO_QUANT_TABLE, index\);", jcmk) else 0
+# std tables the correspondence needs (jcparam.c, jstdhuff.c)
+def c_array(src, name, fname):
+    mm = re.search(r"%s\[[^\]]*\]\s*=\s*\{([^}]*)\}" % name, src)
+    if not mm:
+        die("%s: table %s not found" % (fname, name))
+    return [int(x, 0) for x in re.findall(r"0x[0-9a-fA-F]+|\d+", mm.group(1))]
+std_lum_q = c_array(jcp, "std_luminance_quant_tbl", "jcparam.c")
+jsh = strip_comments(rd("jstdhuff.c"))
+std_dc_bits = c_array(jsh, "bits_dc_luminance", "jstdhuff.c"); std_dc_vals = c_array(jsh, "val_dc_luminance", "jstdhuff.c")
+std_ac_bits = c_array(jsh, "bits_ac_luminance", "jstdhuff.c"); std_ac_vals = c_array(jsh, "val_ac_luminance", "jstdhuff.c")
+if len(std_lum_q) != 64 or len(std_dc_bits) != 17 or len(std_ac_bits) != 17:
+    die("std table sizes changed")
+m = re.search(r"if \(quality < 50\)\s*quality = 5000 / quality;\s*else\s*quality = 200 - quality \* 2;", jcp)
+if not m:
+    die("jcparam.c: jpeg_quality_scaling curve not found")
+# jcmaster.c: the pass bookkeeping the pass model mirrors
+for pat, what in [(r"if \(cinfo->Ss != 0 \|\| cinfo->Ah == 0 \|\| cinfo->arith_code \|\|\s*cinfo->master->lossless\) \{", "huff_opt_pass skip condition"),
+                  (r"master->pass_type = output_pass;\s*master->pass_number\+\+;\s*#endif\s*FALLTHROUGH", "DC refinement fall-through"),
+                  (r"if \(cinfo->optimize_coding\)\s*master->total_passes = cinfo->num_scans \* 2;\s*else\s*master->total_passes = cinfo->num_scans;", "total_passes"),
+                  (r"if \(cinfo->arith_code\)\s*cinfo->optimize_coding = FALSE;\s*else \{\s*if \(cinfo->master->lossless \|\|\s*cinfo->progressive_mode\)\s*cinfo->optimize_coding = TRUE;", "optimize_coding forcing"),
+                  (r"master->pub.is_last_pass = \(master->pass_number == master->total_passes - 1\);", "is_last_pass")]:
+    if not re.search(pat, jcm):
+        die("jcmaster.c: %s no longer has the modelled form" % what)
+
 # ---------------------------------------------------------------- jcapistd.c: raw-data row accounting
 jca = strip_comments(rd("jcapistd.c"))
 m = re.search(r"lines_per_iMCU_row = cinfo->max_v_samp_factor \* DCTSIZE;\s*if \(num_lines < lines_per_iMCU_row\)\s*ERREXIT\(cinfo, JERR_BUFFER_SIZE\);", jca)
@@ -393,11 +447,16 @@ for k in ["DCTSIZE", "DCTSIZE2", "MAX_COMPONENTS", "MAX_COMPS_IN_SCAN", "C_MAX_B
           "MAX_COEF_BITS_ADD", "DC_EXTRA_BITS", "AHAL_PREC", "MAX_AH_AL_HI", "MAX_AH_AL_LO", "LOSSLESS_PREC_MIN", "LOSSLESS_PREC_MAX",
           "LOSSY_PREC_A", "LOSSY_PREC_B", "RESTART_MAX", "PSV_MIN", "PSV_MAX", "QUANT_MIN", "QUANT_MAX", "QUANT_BASELINE_MAX",
           "QUALITY_MIN", "QUALITY_MAX", "SP_YCC_NCOMPS", "SP_YCC_NSCANS", "SP_BIG_MUL", "SP_ADD", "SP_MUL", "SP_SIZE_RULE",
-          "SP_ALLOC_GUARD", "SP_MIN_SLOTS", "DRI_RULE", "RAW_ADVANCE", "DIVISOR_CLAMP", "DIVISOR_CLAMPED_EVERYWHERE", "ZERO_QUANT_REJECTED",
+          "SP_ALLOC_GUARD", "SP_MIN_SLOTS", "DRI_RULE", "RAW_ADVANCE", "DQT_INDEX_CHECK", "DIVISOR_CLAMP", "DIVISOR_CLAMPED_EVERYWHERE", "ZERO_QUANT_REJECTED",
           "NCOMP_CHECK_IN_VALIDATE", "REVALIDATE_AFTER_LOSSLESS", "MISSING_CODE_CHECK", "MISSING_ZRL_EOB_CHECK", "SIMD_RANGE_PRECHECK", "RESTART_CLAMP_DIRECT", "TJ_NUMSAMP", "TJ_NUMCS"]:
     out.append("Definition g_%s : Z := %d." % (k, consts[k]))
 out.append("\n(* zigzag order of encode_one_block: position 0 and the 63 kloop() arguments *)")
 out.append("Definition g_kloop_order : list Z :=\n  [%s]." % "; ".join(map(str, zz)))
+for nm in sorted(mcodes):
+    out.append("Definition g_M_%s : Z := %d." % (nm, mcodes[nm]))
+for nm, l in (("g_std_luminance_quant_tbl", std_lum_q), ("g_std_dc_bits", std_dc_bits), ("g_std_dc_vals", std_dc_vals),
+              ("g_std_ac_bits", std_ac_bits), ("g_std_ac_vals", std_ac_vals)):
+    out.append("Definition %s : list Z :=\n  [%s]." % (nm, "; ".join(map(str, l))))
 out.append("\n(* jpeg_simple_progression: the two scripts as calls (kind, a, b, c, d, e): 0 fill_dc_scans(Ah, Al), 1 fill_a_scan(ci, Ss, Se, Ah, Al), 2 fill_scans(Ss, Se, Ah, Al) *)")
 for nm, l in (("g_sp_ycc", sp_ycc), ("g_sp_gen", sp_gen)):
     out.append("Definition %s : list (Z * Z * Z * Z * Z * Z) :=\n  [%s]." % (nm, "; ".join("(%d, %d, %d, %d, %d, %d)" % t for t in l)))
